@@ -918,21 +918,17 @@ impl Ty {
                 Some(Ty::Float(*first_bit_width.max(second_bit_width)))
             }
             // distincts
-            (non_distinct, Ty::Distinct { .. }) => {
-                assert_eq!(self, non_distinct);
-                if other.has_semantics_of(self) {
-                    Some(other.clone())
-                } else {
-                    None
-                }
+            // the distinct type is only the max if the other type also fits into it,
+            // otherwise the later arms (optionals, error unions, ...) get their chance
+            (non_distinct, Ty::Distinct { .. })
+                if other.has_semantics_of(non_distinct) && non_distinct.can_fit_into(other) =>
+            {
+                Some(other.clone())
             }
-            (Ty::Distinct { .. }, non_distinct) => {
-                assert_eq!(other, non_distinct);
-                if self.has_semantics_of(non_distinct) {
-                    Some(self.clone())
-                } else {
-                    None
-                }
+            (Ty::Distinct { .. }, non_distinct)
+                if self.has_semantics_of(non_distinct) && non_distinct.can_fit_into(self) =>
+            {
+                Some(self.clone())
             }
             // enums
             (
